@@ -13,3 +13,8 @@ package ratelimit
 //@   assert at mapupdate#1: key == entry_key && calls("(*middleware/ratelimit.LimiterStore).evictOne") <= 1
 //@   assert at call golang.org/x/time/rate.NewLimiter#1: calls("golang.org/x/time/rate.NewLimiter") == 0
 //@   assert at return#3: calls("(*middleware/ratelimit.LimiterStore).evictOne") <= 1
+//@   # C16, KNOWN FINDING (recorded, not repaired - see /verif/known_findings.json): "writers never wait on a global
+//@   # lock" names the limiter stores; this store is one map behind one store-wide RWMutex, and the insert path (and
+//@   # the eviction scan it runs) takes that lock exclusively. The obligation says what the property says: the writer
+//@   # path acquires no store-wide exclusive lock
+//@   assert at call (*sync.RWMutex).Lock#1: false
